@@ -308,6 +308,14 @@ func (t *Tree) Add(parent int, rng *rand.Rand, nOps int, script []string, tsOffs
 	return n
 }
 
+// AddAtTime mines an empty (or randomly filled) valid child of parent with an explicit timestamp
+// (used to build branches whose difficulty, and therefore total work, diverges from their length).
+func (t *Tree) AddAtTime(parent int, rng *rand.Rand, nOps int, ts time.Time) *Node {
+	p := t.Node(parent)
+	canonical := t.W.Genesis.Timestamp.Add(time.Duration(10*(p.Height+1)) * time.Second)
+	return t.Add(parent, rng, nOps, nil, int(ts.Sub(canonical)/time.Second), "")
+}
+
 // Heavier reports SufficientlyHeavierThan between the states of two nodes (false if undefined).
 func (t *Tree) Heavier(a, b int) bool {
 	na, nb := t.Node(a), t.Node(b)
